@@ -129,6 +129,64 @@ pub fn check_segments(ast: &Query, doc: &Doc, events: &[Event], result: &[usize]
             st.permissive_blocks += expected_blocks.len();
             continue;
         }
+        if selector_major_known && seg.selectors.len() > 1 && seg.descendant {
+            // the armed union-order finding under a traversal order other than pre-order: the
+            // output is, selector by selector, the selection over the visited nodes. Cut it by the
+            // (order-independent) per-selector sizes and judge each chunk with the single-selector
+            // permissive parse; the visit orders of the chunks must agree with each other.
+            let mut rc3 = RefCtx::new(&doc.j);
+            let mut all_visited: Vec<Node> = vec![];
+            for l in &in_locs {
+                if let Some(n) = doc.j.at(l) {
+                    let one = Segment { descendant: true, selectors: vec![Selector::Wildcard] };
+                    let _ = one;
+                    collect_preorder(&(l.clone(), n), &mut all_visited);
+                }
+            }
+            let mut pos = 0usize;
+            let mut ok = true;
+            let mut orders: Vec<Vec<Loc>> = vec![];
+            for s in &seg.selectors {
+                let mut size = 0usize;
+                for v in &all_visited {
+                    let mut tmp = vec![];
+                    if rc3.select(s, v, &mut tmp).is_err() {
+                        ok = false;
+                    }
+                    size += tmp.len();
+                }
+                if pos + size > out_locs.len() {
+                    ok = false;
+                    break;
+                }
+                let chunk = &out_locs[pos..pos + size];
+                pos += size;
+                let single = [s.clone()];
+                match descend_block(doc, &mut rc3, &single, chunk, in_locs.len() == 1) {
+                    Ok(v) => orders.push(v),
+                    Err(_) => {
+                        ok = false;
+                        break;
+                    }
+                }
+            }
+            if ok && pos == out_locs.len() && in_locs.len() == 1 {
+                // mutual consistency: common nodes appear in the same relative order in every chunk
+                for a in 0..orders.len() {
+                    for b in (a + 1)..orders.len() {
+                        let common: Vec<&Loc> = orders[a].iter().filter(|l| orders[b].contains(l)).collect();
+                        let common_b: Vec<&Loc> = orders[b].iter().filter(|l| orders[a].contains(l)).collect();
+                        if common != common_b {
+                            ok = false;
+                        }
+                    }
+                }
+            }
+            if ok && pos == out_locs.len() {
+                st.known_union_segments += 1;
+                continue;
+            }
+        }
         if selector_major_known && seg.selectors.len() > 1 {
             // exact effect model of the armed union-order finding, applied to this one segment
             let mut rc2 = RefCtx::with_dev(&doc.j, oracle::eval::Dev { selector_major: true });
@@ -160,42 +218,9 @@ pub fn check_segments(ast: &Query, doc: &Doc, events: &[Event], result: &[usize]
                 )));
             }
             // descendant: parse into sub-blocks per visited node
-            let mut visited: Vec<Loc> = vec![];
-            let mut p = 0;
-            while p < block.len() {
-                let v: Loc = block[p][..block[p].len().saturating_sub(1)].to_vec();
-                if visited.contains(&v) {
-                    return Err(TraceErr::Order(format!("segment {}: selection of node {} is split or repeated", k, oracle::npath::render(&v))));
-                }
-                let vnode = doc.j.at(&v).ok_or(TraceErr::Foreign)?;
-                let mut sel = vec![];
-                for s in &seg.selectors {
-                    rc.select(s, &(v.clone(), vnode), &mut sel).map_err(|_| TraceErr::Chain("budget".into()))?;
-                }
-                let sel: Vec<Loc> = sel.into_iter().map(|(l, _)| l).collect();
-                if sel.is_empty() || p + sel.len() > block.len() || block[p..p + sel.len()] != sel[..] {
-                    return Err(TraceErr::Order(format!(
-                        "segment {}: children selected from {} are not in selector/container order: expected {:?} observed {:?}",
-                        k,
-                        oracle::npath::render(&v),
-                        sel.iter().map(|l| oracle::npath::render(l)).collect::<Vec<_>>(),
-                        block[p..(p + sel.len()).min(block.len())].iter().map(|l| oracle::npath::render(l)).collect::<Vec<_>>()
-                    )));
-                }
-                p += sel.len();
-                visited.push(v);
-            }
-            for i in 0..visited.len() {
-                for j in (i + 1)..visited.len() {
-                    if must_precede(&visited[j], &visited[i]) {
-                        return Err(TraceErr::Order(format!(
-                            "segment {}: {} visited before {} (a node must precede its descendants; array elements in array order)",
-                            k,
-                            oracle::npath::render(&visited[i]),
-                            oracle::npath::render(&visited[j])
-                        )));
-                    }
-                }
+            match descend_block(doc, &mut rc, &seg.selectors, block, true) {
+                Ok(_) => {}
+                Err(m) => return Err(TraceErr::Order(format!("segment {}: {}", k, m))),
             }
             st.noncanonical_accepted += 1;
         }
@@ -204,4 +229,60 @@ pub fn check_segments(ast: &Query, doc: &Doc, events: &[Event], result: &[usize]
         return Err(TraceErr::Chain("output of the last segment is not the API result".into()));
     }
     Ok(())
+}
+
+type Node<'a> = (Loc, &'a oracle::json::J);
+
+fn collect_preorder<'a>(n: &Node<'a>, out: &mut Vec<Node<'a>>) {
+    out.push(n.clone());
+    for (s, c) in n.1.children() {
+        let mut l = n.0.clone();
+        l.push(s);
+        collect_preorder(&(l, c), out);
+    }
+}
+
+/// Parses the output block of a descendant segment (for one input node) into the selections of
+/// the visited nodes: each sub-block must be exactly `concat_s select(s, v)` for a node v (the
+/// parent of its first element); with `strict` every v appears once and the visit order must be
+/// consistent with "a node before its descendants, array elements in array order".
+fn descend_block<'a>(doc: &'a Doc, rc: &mut RefCtx<'a>, selectors: &[Selector], block: &[Loc], strict: bool) -> Result<Vec<Loc>, String> {
+    let mut visited: Vec<Loc> = vec![];
+    let mut p = 0;
+    while p < block.len() {
+        let v: Loc = block[p][..block[p].len().saturating_sub(1)].to_vec();
+        if strict && visited.contains(&v) {
+            return Err(format!("selection of node {} is split or repeated", oracle::npath::render(&v)));
+        }
+        let vnode = doc.j.at(&v).ok_or_else(|| "node not in document".to_string())?;
+        let mut sel = vec![];
+        for s in selectors {
+            rc.select(s, &(v.clone(), vnode), &mut sel).map_err(|_| "budget".to_string())?;
+        }
+        let sel: Vec<Loc> = sel.into_iter().map(|(l, _)| l).collect();
+        if sel.is_empty() || p + sel.len() > block.len() || block[p..p + sel.len()] != sel[..] {
+            return Err(format!(
+                "children selected from {} are not in selector/container order: expected {:?} observed {:?}",
+                oracle::npath::render(&v),
+                sel.iter().map(|l| oracle::npath::render(l)).collect::<Vec<_>>(),
+                block[p..(p + sel.len()).min(block.len())].iter().map(|l| oracle::npath::render(l)).collect::<Vec<_>>()
+            ));
+        }
+        p += sel.len();
+        visited.push(v);
+    }
+    if strict {
+        for i in 0..visited.len() {
+            for j in (i + 1)..visited.len() {
+                if must_precede(&visited[j], &visited[i]) {
+                    return Err(format!(
+                        "{} visited before {} (a node must precede its descendants; array elements in array order)",
+                        oracle::npath::render(&visited[i]),
+                        oracle::npath::render(&visited[j])
+                    ));
+                }
+            }
+        }
+    }
+    Ok(visited)
 }
